@@ -133,7 +133,7 @@ class WatchProject:
             parts.append('%s%d%s' % (t, self.version[t], '!' if self.bad.get(t) else ''))
         for p in s['producers']:
             try:
-                parts.append('%s=%s' % (p, open(os.path.join(self.dir, 'out', p + '.txt')).read().strip()))
+                parts.append('%s=%s' % (p, open(os.path.join(self.dir, 'out', p + '.txt')).read().rstrip('\n')))
             except FileNotFoundError:
                 parts.append('%s=' % p)
         return ' '.join(parts)
@@ -277,7 +277,7 @@ def scenario(rng, T, roots, gated, plan, tag='wt'):
             want = proj.expected_stamp(t)
             if s['kind'] == 'build':
                 try:
-                    got = open(os.path.join(d, 'out', t + '.txt')).read().strip()
+                    got = open(os.path.join(d, 'out', t + '.txt')).read().rstrip('\n')
                 except FileNotFoundError:
                     got = None
             else:
@@ -296,7 +296,7 @@ def scenario(rng, T, roots, gated, plan, tag='wt'):
                 want = proj.expected_stamp(t)
                 if T[t]['kind'] == 'build':
                     try:
-                        got = open(os.path.join(d, 'out', t + '.txt')).read().strip()
+                        got = open(os.path.join(d, 'out', t + '.txt')).read().rstrip('\n')
                     except FileNotFoundError:
                         got = None
                 else:
